@@ -407,6 +407,8 @@ class Exec:
             items = list(self.elements(cur))
             i = -p[1] if p[2] else p[1]
             items[i] = self.write_into(items[i], rest, newv, st)
+            if hasattr(cur, "with_elements"):
+                return cur.with_elements(tuple(items))
             return ("agg", tuple(items))
         if p[0] == "range":
             items = list(self.elements(cur))
@@ -993,6 +995,8 @@ class Exec:
             if rx.search(fname):
                 ctx.calls_seen[fname] = "model"
                 r = fn(self, st, args, dest_ty, fname)
+                if isinstance(r, tuple) and len(r) == 2 and r[0] == "__with_heap__":
+                    return r[1]
                 if isinstance(r, list):
                     return [(c, v, None) for c, v in r]
                 return [(True, r, None)]
